@@ -156,8 +156,7 @@ Definition fix_inputs_model (w : wcs) (fx : list (Z * Z)) : res wcs :=
   match pipeline w with
   | s0 :: rest =>
       match step_transform s0 with
-      | Some m => Ok {| pipeline := mk_step (step_frame s0) (Some {| te := FixIn (te m) fx; mbox := None |}) :: rest;
-                        attrs := attrs w |}
+      | Some m => Ok (mk_wcs (mk_step (step_frame s0) (Some {| te := FixIn (te m) fx; mbox := None |}) :: rest) (attrs w))
       | None => Err OtherError
       end
   | [] => Err IndexError
@@ -174,11 +173,10 @@ Proof.
   assert (Hs0 : step_transform s0 = Some a).
   { rewrite Hp in Hts. destruct rest as [|s1 rest']; [congruence|]. cbn in Hts. now inversion Hts. }
   rewrite Hs0.
-  set (w' := {| pipeline := mk_step (step_frame s0) (Some {| te := FixIn (te a) fx; mbox := None |}) :: rest;
-                attrs := attrs w |}).
+  set (w' := mk_wcs (mk_step (step_frame s0) (Some {| te := FixIn (te a) fx; mbox := None |}) :: rest) (attrs w)).
   destruct (forward_is_chain V den den_inv fill w a ms Hts) as [m [Hm1 Hm2]].
   assert (Hts' : map step_transform (removelast (pipeline w')) = map Some ({| te := FixIn (te a) fx; mbox := None |} :: ms)).
-  { subst w'. cbn [pipeline]. rewrite Hp in Hts. destruct rest as [|s1 rest']; [congruence|].
+  { subst w'. cbn [pipeline mk_wcs]. rewrite Hp in Hts. destruct rest as [|s1 rest']; [congruence|].
     cbn [removelast map] in *. cbn [mk_step step_transform]. inversion Hts as [[H0 H1]]. now rewrite H1. }
   destruct (forward_is_chain V den den_inv fill w' _ ms Hts') as [m' [Hm1' Hm2']].
   exists w', m, m'. repeat split; try assumption.
